@@ -8,4 +8,7 @@ open Gen
 /-! ### panic guard (C15) -/
 theorem guarded_all_runners (r : Runner) : guarded r = true := by cases r <;> rfl
 
+/-- a runner that panics marks its queue Panicked in every state it can be in while running (Running, AwokenWhileRunning, …) -/
+theorem guard_marks_panicked_always : guardMarksPanickedAlways = true := by decide
+
 end Desync
